@@ -138,6 +138,8 @@ mod ref_cnt;
 #[cfg(feature = "serde")]
 mod serde;
 pub mod strategy;
+#[cfg(arc_swap_verif)]
+pub mod verif_hooks;
 #[cfg(feature = "weak")]
 mod weak;
 
@@ -147,7 +149,12 @@ use core::marker::PhantomData;
 use core::mem;
 use core::ops::Deref;
 use core::ptr;
+#[cfg(not(arc_swap_verif))]
 use core::sync::atomic::{AtomicPtr, Ordering};
+#[cfg(arc_swap_verif)]
+use core::sync::atomic::Ordering;
+#[cfg(arc_swap_verif)]
+use crate::verif_hooks::AtomicPtr;
 
 use alloc::sync::Arc;
 
